@@ -139,6 +139,10 @@ def main() -> int:
         import locale as _locale
 
         acc.count(f"filesystem_encoding_{sys.getfilesystemencoding()}")
+        if args.shard % 7 == 5 or (args.nshards <= 2 and args.shard == 0):
+            # the application has called locale.setlocale for its own display purposes: weekday and month names are not English
+            got_locale = env.foreign_time_locale()
+            acc.count("workers_with_a_foreign_LC_TIME_locale" if got_locale else "foreign_LC_TIME_locale_unavailable")
         if args.shard % 3 == 1:
             # the decimal context is the application's to set; a third of the workers run with another rounding mode
             import decimal
